@@ -110,7 +110,8 @@ func VerifNavSubformat()  { zzVerifNav(5) }
 func VerifNavNestedRoot() { zzVerifNav(6) }
 func VerifNavLoop()       { zzVerifNav(7) }
 func VerifNavSymLayout()  { zzVerifNav(8) }
-func VerifNavErrors()     { zzVerifNav(9) }
+func VerifNavRootArray()  { zzVerifNav(9) }
+func VerifNavErrors()     { zzVerifNav(10) }
 
 // ---------------------------------------------------------------------------
 // C05: tobits/tobytes of a value are exactly the input bits of its range
@@ -213,4 +214,5 @@ func VerifToBitsRanges()     { zzVerifToBits(4) }
 func VerifToBitsSubformat()  { zzVerifToBits(5) }
 func VerifToBitsNestedRoot() { zzVerifToBits(6) }
 func VerifToBitsLoop()       { zzVerifToBits(7) }
-func VerifToBitsErrors()     { zzVerifToBits(9) }
+func VerifToBitsRootArray()  { zzVerifToBits(9) }
+func VerifToBitsErrors()     { zzVerifToBits(10) }
